@@ -248,13 +248,47 @@ def option_none_via_from(src):
     return m.group(2)
 
 
-def lean(into, frm, regs, policy, optnone):
+def tuple_length_checks(src):
+    """{arity: exact?} for every `impl FromSteelVal for (A, B, ..)` of conversions.rs: does the impl reject a
+    list whose length differs from the arity (`l.len() != n` -> Err, or an iterator that is checked to have ended)?"""
+    out = {}
+    for m in re.finditer(r"impl<[^>]*>\s+FromSteelVal\s+for\s+\(([^()]*)\)\s*\{", src):
+        params = [x.strip() for x in m.group(1).split(",") if x.strip()]
+        n = len(params)
+        if n == 0:
+            continue
+        body = re.sub(r"\s+", " ", block_at(src, m.end() - 1))
+        if "ListV" not in body:
+            raise Broken("tuple impl of arity %d does not match on a list" % n)
+        nexts = len(re.findall(r"\.next\(\)", body))
+        if re.search(r"\.len\(\)\s*!=\s*%d\b[^;{]*\{\s*return Err" % n, body) or \
+                re.search(r"\.len\(\)\s*==\s*%d\b" % n, body):
+            exact = True
+        elif nexts >= n + 1 and re.search(r"None|is_none\(\)", body):
+            exact = True
+        elif nexts == n or (nexts == 0 and re.search(r"\.get\(\s*%d\s*\)" % (n - 1), body)):
+            exact = False
+        else:
+            raise Broken("cannot tell whether the tuple impl of arity %d checks the length: %s" % (n, body[:240]))
+        if n in out:
+            raise Broken("two FromSteelVal impls for tuples of arity %d" % n)
+        out[n] = exact
+    if 2 not in out:
+        raise Broken("FromSteelVal for (A, B) not found in conversions.rs")
+    extra = sorted(k for k in out if k != 2)
+    if extra:
+        raise Broken("tuple impls of arity %s exist but are not modelled (only pairs are)" % extra)
+    return out
+
+
+def lean(into, frm, regs, policy, optnone, tuples):
     L = ["/- GENERATED by translate/c20_convs.py from crates/steel-core/src/primitives.rs and",
          "   steel_vm/register_fn.rs on every run of checks/c20.py.  Do not edit. -/",
          "import SteelVerif.C20.Model", "namespace SteelVerif.C20", "",
          "def genTable : ConvTable where",
          "  intoL := [" + ", ".join("(.%s, .%s)" % (t, into[t]) for t in INTS if t in into) + "]",
-         "  fromL := [" + ", ".join("(.%s, .%s)" % (t, frm[t]) for t in INTS if t in frm) + "]", "",
+         "  fromL := [" + ", ".join("(.%s, .%s)" % (t, frm[t]) for t in INTS if t in frm) + "]",
+         "  pairExact := %s" % ("true" if tuples[2] else "false"), "",
          "/-- (method-shaped, arity, args index read for each parameter) per macro invocation -/",
          "def genRegIdx : List (Bool × Nat × List Nat) := ["]
     L += ["  (%s, %d, [%s])," % ("true" if s else "false", a, ", ".join(map(str, ix))) for s, a, ix in regs]
@@ -275,11 +309,12 @@ def main():
         into, frm = conv_tables(prim)
         regs = reg_tables(reg)
         optnone = option_none_via_from(prim)
+        tuples = tuple_length_checks(strip_comments(open(repo + "/crates/steel-core/src/conversions.rs").read()))
         policy = free_policy(strip_comments(open(repo + "/crates/steel-core/src/steel_vm/engine.rs").read()))
     except (Broken, OSError, ValueError) as e:
         print("c20_convs: %s" % e, file=sys.stderr)
         sys.exit(2)
-    text = lean(into, frm, regs, policy, optnone)
+    text = lean(into, frm, regs, policy, optnone, tuples)
     try:
         old = open(out).read()
     except OSError:
@@ -289,6 +324,7 @@ def main():
             f.write(text)
     print(json.dumps({"into": into, "from": frm,
                       "register_idx": [[s, a, ix] for s, a, ix in regs], "free_policy": policy, "option_none_via_from": optnone,
+                      "tuple_length_checked": {str(k): v for k, v in tuples.items()},
                       "changed": old != text}))
 
 
